@@ -176,6 +176,23 @@ def check_bs(x, problems, acc, cond):
                         else:
                             inner = np.array(knots, dtype=float)
                         ncol = bs_expected_cols(df, knots, degree, intercept)
+                        if knots is not None and lb is None:
+                            # df and knots given together: the consistent df is accepted and changes nothing, any other is refused
+                            acc.calls += 3
+                            try:
+                                B2 = np.asarray(T("bs")(x, df=ncol, **kw), dtype=float)
+                                if B2.shape != B.shape or not np.array_equal(B2, B, equal_nan=True):
+                                    problems.append(("bs", f"bs{kw} with the consistent df={ncol} differs from the call without df"))
+                            except Exception as e:
+                                problems.append(("bs", f"bs{kw} with the consistent df={ncol} raised {type(e).__name__}: {e}"))
+                            for bad in (ncol + 1, ncol - 1):
+                                if bad < 1:
+                                    continue
+                                try:
+                                    T("bs")(x, df=bad, **kw)
+                                    problems.append(("bs-invalid-refused", f"bs{kw} with the contradictory df={bad} (knots and degree give {ncol} columns) was accepted"))
+                                except Exception:
+                                    pass
                         if B.ndim != 2 or B.shape != (len(x), ncol):
                             problems.append(("bs", f"bs{kw}: shape {B.shape}, expected {(len(x), ncol)}"))
                             continue
